@@ -249,7 +249,12 @@ def run(ctx, res):
     closures.check(ctx, res, "C06.R7", ('mtbl_sorter_options',))
 
     # ---- properties this one rests on (re-run here, labelled <this>.D.<rule>) ------------------
+    depends(ctx, res, 'C04', None, 'the sorted output is the merge of the chunks: every rule of the merger applies')
     depends(ctx, res, 'C02', ('C02.R3',), 'chunks are sorted and folded with the byte comparison')
+
+    # ---- heap discipline: the final merge of the chunks runs on libmy/heap.c
+    from . import heaprule
+    heaprule.check(ctx, res, "C06.R9")
 
     # ---- container contract ---------------------------------------------------------------------
     from . import vecrule
